@@ -55,7 +55,7 @@ pub fn gen_case(seed: u64, idx: usize, kinds: &[SectionKind], mode: usize) -> Ca
 }
 
 fn render(config: &delta::verif_hooks::Config, data: Vec<u8>) -> Result<Vec<u8>, String> {
-    let r = run_delta(RunParams { config, data: Rc::new(data), rschedule: vec![], wplan: vec![], fail_at: None, fail_kind: std::io::ErrorKind::BrokenPipe, keep_output: true, record_quiescence: false });
+    let r = run_delta(RunParams { config, data: Rc::new(data), rschedule: vec![], rdelays_ms: vec![], wplan: vec![], fail_at: None, fail_kind: std::io::ErrorKind::BrokenPipe, keep_output: true, record_quiescence: false });
     match r.result {
         Ok(Ok(())) => Ok(r.shared.out),
         Ok(Err(e)) => Err(format!("error: {}", e)),
